@@ -280,6 +280,33 @@ func runCheck(o *Options) int {
 		}(i, pb)
 	}
 	wg.Wait()
+	// second round: an obligation that no solver decided within the limit is undecided, not failed - it is tried once
+	// more with three times the limit before it is reported (keeps the check stable on obligations near the limit;
+	// costs time only when something really fails)
+	{
+		var wg2 sync.WaitGroup
+		for i, ob := range obls {
+			if ob.Res.Status != "timeout" && ob.Res.Status != "unknown" {
+				continue
+			}
+			wg2.Add(1)
+			go func(i int, ob *Obl) {
+				defer wg2.Done()
+				sem <- struct{}{}
+				defer func() { <-sem }()
+				q := ob.script.query(ob.nfacts, ob.anc, ob.guard, not(ob.goal))
+				to := timeout * 3
+				if ob.Bound > 0 && to < 120 {
+					to = 120
+				}
+				first := ob.Res
+				ob.Res = discharge(workdir, fmt.Sprintf("r%04d_%s", i, shortName(ob.Name)), q, to, true, nil)
+				ob.Res.TimeS += first.TimeS
+				ob.Retried = true
+			}(i, ob)
+		}
+		wg2.Wait()
+	}
 	if skippedBoundedSafety > 0 {
 		fmt.Fprintf(os.Stderr, "quick tier: %d safety obligations of bounded units deferred to the thorough tier\n", skippedBoundedSafety)
 	}
